@@ -400,3 +400,99 @@ m('eq3-processone-front-ref', 'eventqueue.h', """				auto & item = tempList.fron
 				auto & item = *it;
 				doDispatchQueuedEvent(
 					item.get(),""", 'C05,C06,C08,C11', 'silent')
+
+# ---------------- behaviour-preserving refactorings (probe batch 4: utilities and heterogeneous classes) ----------
+m('eq4-condremover-local-bool', 'utilities/conditionalremover.h', """			if(data->shouldRemove(args...)) {
+				data->dispatcher.removeListener(data->event, data->handle);
+			}
+			data->listener(std::forward<Args>(args)...);""", """			const bool remove = data->shouldRemove(args...);
+			if(remove) {
+				data->dispatcher.removeListener(data->event, data->handle);
+			}
+			data->listener(std::forward<Args>(args)...);""", 'C16', 'silent')
+m('eq4-anydata-getaddress-swap-branches', 'utilities/anydata.h', """		if(! isLargerData()) {
+			return buffer.data();
+		}
+		else {
+			return ((const LargeData *)buffer.data())->getAddress();
+		}""", """		if(isLargerData()) {
+			return ((const LargeData *)buffer.data())->getAddress();
+		}
+		return buffer.data();""", 'C17', 'silent')
+m('eq4-scoped-remove-two-steps', 'utilities/scopedremover.h', """		if(internal_::removeHandleFromScopedRemoverItemList(itemList, handle, itemListMutex)) {
+			return dispatcher->removeListener(event, handle);
+		}
+		return false;""", """		const bool recorded = internal_::removeHandleFromScopedRemoverItemList(itemList, handle, itemListMutex);
+		if(! recorded) {
+			return false;
+		}
+		return dispatcher->removeListener(event, handle);""", 'C15,C09', 'silent')
+m('eq4-heter-remove-early-return', 'hetercallbacklist.h', """		auto callbackList = callbackListList[handle.index];""", """		const auto & slot = callbackListList[handle.index];
+		auto callbackList = slot;""", 'C14,C03', 'silent')
+m('eq4-ordered-compare-functor-local', 'utilities/orderedqueuelist.h', """			if(a.empty()) {
+				if(b.empty()) {
+					return false;
+				}
+				return true;
+			}""", """			if(a.empty()) {
+				return ! b.empty();
+			}""", 'C13,C08', 'silent')
+
+# ---------------- behaviour-preserving refactorings (probe batch 5: callback list) ------------------------
+m('eq5-remove-early-return', 'callbacklist.h', """		auto node = handle.lock();
+		// A removed callback can still be alive when a running invocation holds it.
+		if(node && node->counter != removedCounter) {
+			doFreeNode(node);
+			return true;
+		}
+
+		return false;
+	}
+
+	bool ownsHandle""", """		auto node = handle.lock();
+		if(! node || node->counter == removedCounter) {
+			return false;
+		}
+		doFreeNode(node);
+		return true;
+	}
+
+	bool ownsHandle""", 'C01,C02,C03,C08,C09', 'silent')
+m('eq5-freenode-local-links', 'callbacklist.h', """		if(node->next) {
+			node->next->previous = node->previous;
+		}
+		if(node->previous) {
+			node->previous->next = node->next;
+		}
+""", """		NodePtr next = node->next;
+		NodePtr previous = node->previous;
+		if(next) {
+			next->previous = previous;
+		}
+		if(previous) {
+			previous->next = next;
+		}
+""", 'C01,C02,C03,C08', 'silent')
+m('eq5-freeall-for-loop', 'callbacklist.h', """		NodePtr node = head;
+		head.reset();
+		while(node) {
+			NodePtr next = node->next;
+			node->previous.reset();
+			node->next.reset();
+			node = next;
+		}
+		node.reset();""", """		NodePtr node = head;
+		head.reset();
+		for(; node; ) {
+			NodePtr next = node->next;
+			node->previous.reset();
+			node->next.reset();
+			node = std::move(next);
+		}""", 'C08,C01,C10', 'silent')
+m('eq5-ownshandle-walk-forward', 'callbacklist.h', """			while(node->previous) {
+				node = node->previous;
+			}
+			return node == head;""", """			while(node->next) {
+				node = node->next;
+			}
+			return node == tail;""", 'C01,C02,C03', 'silent')
